@@ -139,6 +139,8 @@ def z3sort(ty):
             return T.Int
         if ty[0] == 'z3':
             return ty[1]
+        if ty[0] == 'obj':
+            return ty[2]
     raise TypeError('no z3 sort for %r' % (ty,))
 
 
